@@ -265,6 +265,8 @@ def is_benign_call(call: ast.Call) -> bool:
         return True
     if name == "str" and len(call.args) <= 1:
         return True
+    if name in ("anyio.CancelScope", "anyio.fail_after", "anyio.move_on_after", "anyio.get_cancelled_exc_class", "CancelScope", "fail_after"):
+        return True  # constructing a cancel scope does not raise; its effects are at the with-exit
     return False
 
 
@@ -272,6 +274,7 @@ class PathAnalysis(flow.Analysis):
     """Literals + environment + events.  Rules subclass or parameterise it."""
 
     track_cancel = False  # add a `Cancelled` edge at every await
+    exc_after_events = False  # an exception raised by a statement carries the events of the calls it made
     fallible = True  # opaque calls may raise `Exception*`
     prune = True  # drop a branch whose complementary literal already holds
 
@@ -429,6 +432,11 @@ class PathAnalysis(flow.Analysis):
         if isinstance(stmt, (ast.Expr, ast.Delete)):
             return [self._events(state, stmt)]
         return [state]
+
+    def exc_state(self, state, node):
+        if self.exc_after_events:
+            return self._events(state, node)
+        return state
 
     def stable(self, lit: str) -> bool:
         """May `lit` be used to prune a later test?  Only facts about immutable
